@@ -15,6 +15,7 @@ import (
 	"fmt"
 	"os"
 	"runtime"
+	"runtime/debug"
 	"sort"
 	"strings"
 	"sync"
@@ -98,16 +99,18 @@ func main() {
 	gridK := flag.Int("grid-k", 0, "override: max non-default slots per schema")
 	shapeN := flag.Int("shape-n", 4, "max selection nodes per disabled-mode query")
 	workers := flag.Int("workers", runtime.NumCPU(), "worker goroutines")
+	wrapDepth := flag.Int("wrap-depth", 4, "max depth of list/non-null wrappers in the grid")
 	dump := flag.String("dump", "", "print the SDL of an assignment given as slot=value,slot=value and exit")
 	flag.Parse()
 	start := time.Now()
 	var finalDeadline time.Time
 	if *budget > 0 {
-		// the grid may use 60% of the budget, the query shapes get the rest
-		deadline = start.Add(time.Duration(*budget) * time.Second * 6 / 10)
+		// the grid may use 70% of the budget, the query shapes get the rest
+		deadline = start.Add(time.Duration(*budget) * time.Second * 7 / 10)
 		finalDeadline = start.Add(time.Duration(*budget) * time.Second)
 	}
-	grid := newGrid(4)
+	debug.SetGCPercent(400)
+	grid := newGrid(*wrapDepth)
 	if *dump != "" {
 		m := map[string]string{}
 		if *dump != "base" {
@@ -136,6 +139,7 @@ func main() {
 	}
 	col := &collector{findings: map[string]*Finding{}}
 	o := &Output{Layout: *layout, Exhaustive: true, Bounds: map[string]any{}}
+	o.Bounds["wrapper_depth"] = *wrapDepth
 	runGrid(grid, k, *workers, *layout, col, o)
 	deadline = finalDeadline
 	runShapes(*shapeN, *workers, *layout, col, o)
@@ -477,7 +481,6 @@ func runGrid(g *Grid, k, workers int, layout string, col *collector, o *Output) 
 		nf += len(s.Values) - 1
 	}
 	o.Bounds["grid_features"] = nf
-	o.Bounds["wrapper_depth"] = 4
 
 	type result struct {
 		done bool
@@ -526,7 +529,7 @@ func runGrid(g *Grid, k, workers int, layout string, col *collector, o *Output) 
 		}
 		if i == len(cases)/2 {
 			o.Samples = append(o.Samples, map[string]any{"kind": "grid schema", "layout": layout, "assignment": g.Named(cases[i]), "sdl": g.SDL(cases[i]), "queries": []string{"standard introspection.Query", "extended includeDeprecated:true", "extended includeDeprecated:false", "__type(name:) per user type", "standard query with introspection disabled"}})
-		} else if i == len(cases)-1 {
+		} else if i == 1 || i == len(cases)-1 {
 			o.Samples = append(o.Samples, map[string]any{"kind": "grid schema", "layout": layout, "assignment": g.Named(cases[i])})
 		}
 	}
@@ -678,7 +681,7 @@ func runShapes(maxNodes, workers int, layout string, col *collector, o *Output) 
 			stopped = true
 			return false
 		}
-		if idx == 5000 || idx == 200000 {
+		if idx == 100 || idx == 5000 || idx == 200000 {
 			sampleShapes = append(sampleShapes, sh)
 		}
 		jobs <- job{idx, sh}
@@ -751,7 +754,7 @@ func doReplay(g *Grid, file, layout string) int {
 		// rebuild the expectation from the query itself
 		sh := Shape{Query: rf.Replay.Query, Variables: rf.Replay.Variables, MetaKeys: map[string]string{}, Fillers: map[string]string{}}
 		var found *Shape
-		enumerateShapes(6, dirAlphabet, func(s Shape) bool {
+		enumerateShapes(4, dirAlphabet, func(s Shape) bool {
 			if s.Query == sh.Query {
 				found = &s
 				return false
